@@ -122,6 +122,8 @@ RouterLoanEv(ev, t) ==
 EvChecks(ev, t) ==
   (CASE ev.ev = "deposit" -> DepositEv(ev, t)
      [] ev.ev = "withdraw" -> WithdrawEv(ev, t)
+     \* the direct Withdraw message hands in no cw20 shares: it must be refused (an accepted one is judged as a withdrawal)
+     [] ev.ev = "wdirect" -> WithdrawEv(ev, t) \o << <<"C05.withdraw.only-against-shares", ev.res # "ok">> >>
      [] ev.ev = "collect" -> CollectEv(ev, t)
      [] ev.ev = "setfees" -> SetFeesEv(ev, t)
      [] ev.ev = "donate" -> DonateEv(ev, t)
